@@ -66,7 +66,21 @@ Val1(v, gv, D) ==
             [] OTHER -> TRUE)
 RunV(vs, gv, D) == \A v \in vs : Val1(v, gv, D)
 
-InValid(x, D) == x.x >= 2            \* struct In: X int `validate:"min=2"`, Y int
+(* Variants of the struct In and of the map type, selected per case and carried in D as pseudo-entries (they
+   select the TARGET TYPE; they are not deviations):
+     "iv:dgood"  In has a method InitDefaults() that sets X = 5
+     "iv:dbad"   In has a method InitDefaults() that sets X = 1   - a default that violates min=2
+     "iv:val13"  In has a method Validate() that rejects X = 13
+   InitDefaults runs on the working copy every time a struct is unpacked (reifyStruct), before its fields are
+   read: it overrides what the caller pre-filled, and what it sets must validate like any other value.      *)
+IVs == {"iv:plain", "iv:dgood", "iv:dbad", "iv:val13"}
+InitIn(x, D) == IF "iv:dgood" \in D THEN [x EXCEPT !.x = 5] ELSE IF "iv:dbad" \in D THEN [x EXCEPT !.x = 1] ELSE x
+InValid(x, D) == x.x >= 2 /\ ("iv:val13" \in D => x.x # 13)   \* struct In: X int `validate:"min=2"`, Y int (+ Validate())
+\* map types with InitDefaults: MD inserts d: In{5, 0}, MB inserts d: In{1, 0} (violates min=2)
+IsMapTy(ty) == ty \in {"MS", "MD", "MB"}
+InitMap(ty, m) == IF ty \in {"MD", "MB"}
+                  THEN [k \in DOMAIN m \cup {"d"} |-> IF k = "d" THEN InV(IF ty = "MD" THEN 5 ELSE 1, 0) ELSE m[k]]
+                  ELSE m
 
 \* tryRecursiveValidate on a value already in the target (defaults); TRUE = passes
 RECURSIVE RecValid(_,_,_)
@@ -91,11 +105,14 @@ InField(old, sub, name, vs, subpath, spath, D) ==
   IF IsNilC(val) THEN (IF RunV(vs, IntV(old), D) THEN Ok(IntV(old)) ELSE Err(Append(subpath, name)))
   ELSE ReifyInt(val, vs, Append(spath, name), D)
 
-ReifyIn(old, sub, subpath, spath, D) ==
-  LET rx == InField(old.x, sub, "x", {"min2"}, subpath, spath, D) IN
+ReifyIn(old0, sub, subpath, spath, D) ==
+  LET old == InitIn(old0, D)
+      rx  == InField(old.x, sub, "x", {"min2"}, subpath, spath, D) IN
   IF ~IsOk(rx) THEN rx
   ELSE LET ry == InField(old.y, sub, "y", {}, subpath, spath, D) IN
-       IF ~IsOk(ry) THEN ry ELSE Ok(InV(rx.ok.i, ry.ok.i))
+       IF ~IsOk(ry) THEN ry
+       ELSE IF "iv:val13" \in D /\ rx.ok.i = 13 THEN Err(subpath)       \* Validate() on the unpacked struct
+       ELSE Ok(InV(rx.ok.i, ry.ok.i))
 
 ZeroIn == InV(0, 0)
 
@@ -191,27 +208,34 @@ UnpackField(ty, vs, old, parent, name, ppath, D, pol) ==
                    IF badks # {} THEN [errset |-> {r(k).err : k \in badks}]
                    ELSE LET res == MapV(FALSE, [k \in DOMAIN old.m \cup ks |-> IF k \in ks THEN r(k).ok ELSE old.m[k]]) IN
                         IF RunV(vs, res, D) THEN Ok(res) ELSE Err(spath)
-    [] ty = "MS" ->
-         IF absent THEN (IF RecValid(vs, old, D) THEN Ok(old) ELSE Err(spath))
+    [] IsMapTy(ty) ->
+         \* a map type with InitDefaults is initialised even when the setting is absent; entries it (or the caller)
+         \* put there and the configuration does not mention must validate as well
+         IF absent THEN
+            (IF ty = "MS" THEN (IF RecValid(vs, old, D) THEN Ok(old) ELSE Err(spath))
+             ELSE LET to == MapV(FALSE, InitMap(ty, old.m)) IN IF RecValid(vs, to, D) THEN Ok(to) ELSE Err(spath))
          ELSE LET sub == AsCfgNode(val) IN
               IF sub = None THEN Err(spath)
-              ELSE IF DOMAIN sub.d = {} THEN
-                     (LET to == MapV(FALSE, old.m) IN IF RecValid(vs, to, D) THEN Ok(to) ELSE Err(spath))
+              ELSE LET m0 == InitMap(ty, old.m) IN
+              IF DOMAIN sub.d = {} THEN
+                     (LET to == MapV(FALSE, m0) IN IF RecValid(vs, to, D) THEN Ok(to) ELSE Err(spath))
               ELSE LET ks == DOMAIN sub.d
                        r(k) == LET s2 == AsCfgNode(sub.d[k])
                                    kp == Append(spath, k) IN
                                IF s2 = None THEN Err(kp)
-                               ELSE IF k \in DOMAIN old.m THEN
-                                      (LET m == ReifyIn(old.m[k], s2, kp, kp, D) IN
+                               ELSE IF k \in DOMAIN m0 THEN
+                                      (LET m == ReifyIn(m0[k], s2, kp, kp, D) IN
                                        IF IsOk(m) /\ "MapElemUnaddressable" \in D THEN Panic ELSE m)
                                     ELSE ReifyIn(ZeroIn, s2, kp, kp, D)
-                       badks == {k \in ks : ~IsOk(r(k))} IN
+                       badks == {k \in ks : ~IsOk(r(k))}
+                       badu  == {k \in DOMAIN m0 \ ks : ~RecValid({}, m0[k], D)} IN
                    IF badks # {} THEN
                         (IF \E k \in badks : "panic" \in DOMAIN r(k) THEN
                              (IF \A k \in badks : "panic" \in DOMAIN r(k) THEN Panic
                               ELSE [errset |-> {r(k).err : k \in {x \in badks : "err" \in DOMAIN r(x)}}, maypanic |-> TRUE])
                          ELSE [errset |-> {r(k).err : k \in badks}])
-                   ELSE LET res == MapV(FALSE, [k \in DOMAIN old.m \cup ks |-> IF k \in ks THEN r(k).ok ELSE old.m[k]]) IN
+                   ELSE IF badu # {} THEN [errset |-> {Append(spath, k) : k \in badu}]
+                   ELSE LET res == MapV(FALSE, [k \in DOMAIN m0 \cup ks |-> IF k \in ks THEN r(k).ok ELSE m0[k]]) IN
                         IF RunV(vs, res, D) THEN Ok(res) ELSE Err(spath)
 
 \* ---------- outer struct: G int `config:"g"`, F <ty> `config:"f" validate:vs`, H int `config:"h"` ----------
@@ -230,22 +254,23 @@ Unpack(ty, vs, oldF, cfg, D, pol) ==
    how Unpack got there.                                                              *)
 ChkNum(v, n) == CASE v = "nonzero" -> n # 0 [] v = "positive" -> n >= 0 [] v = "min2" -> n >= 2 [] v = "max5" -> n <= 5
                   [] v = "required" -> n # 0
-InOK(x) == x.x >= 2
-RECURSIVE ValidRes(_,_,_)
-ValidRes(ty, vs, gv) ==
+InOK(x, iv) == x.x >= 2 /\ (iv = "iv:val13" => x.x # 13)
+RECURSIVE ValidRes(_,_,_,_)
+ValidRes(ty, vs, gv, iv) ==
   CASE ty = "I"  -> \A v \in vs : ChkNum(v, gv.i)
     [] ty = "PI" -> IF gv = NilPtr THEN "required" \notin vs      \* required on a pointer means "is set"
                     ELSE \A v \in vs \ {"required"} : ChkNum(v, gv.p.i)
-    [] ty = "S"  -> InOK(gv)
-    [] ty = "PS" -> IF gv = NilPtr THEN "required" \notin vs ELSE InOK(gv.p)
+    [] ty = "S"  -> InOK(gv, iv)
+    [] ty = "PS" -> IF gv = NilPtr THEN "required" \notin vs ELSE InOK(gv.p, iv)
     [] ty = "LI" -> /\ ("required" \in vs => ~gv.isnil /\ Len(gv.xs) > 0)
                     /\ ("nonzero" \in vs => gv.isnil \/ Len(gv.xs) > 0)
     [] ty = "LS" -> /\ ("required" \in vs => ~gv.isnil /\ Len(gv.xs) > 0)
                     /\ ("nonzero" \in vs => gv.isnil \/ Len(gv.xs) > 0)
-                    /\ \A i \in 1..Len(gv.xs) : InOK(gv.xs[i])
+                    /\ \A i \in 1..Len(gv.xs) : InOK(gv.xs[i], iv)
     [] ty = "MI" -> /\ ("required" \in vs => ~gv.isnil /\ DOMAIN gv.m # {})
                     /\ ("nonzero" \in vs => gv.isnil \/ DOMAIN gv.m # {})
-    [] ty = "MS" -> /\ ("required" \in vs => ~gv.isnil /\ DOMAIN gv.m # {})
+    [] ty \in {"MS", "MD", "MB"} ->
+                    /\ ("required" \in vs => ~gv.isnil /\ DOMAIN gv.m # {})
                     /\ ("nonzero" \in vs => gv.isnil \/ DOMAIN gv.m # {})
-                    /\ \A key \in DOMAIN gv.m : InOK(gv.m[key])
+                    /\ \A key \in DOMAIN gv.m : InOK(gv.m[key], iv)
 ==========================================================================
